@@ -35,7 +35,7 @@ proof fn lemma_transitions_gap(t: Seq<Transition>, i: int, j: int)
 {
     if i < j {
         lemma_transitions_gap(t, i, j - 1);
-        assert(t[j - 1].unix_leap_time < t[j - 1 + 1].unix_leap_time);
+        assert(trans_step_lt(t, j - 1));
     }
 }
 
@@ -344,4 +344,55 @@ proof fn lemma_g_post(s: Seq<LeapSecond>, t: int, index: int)
     } else {
         lemma_corr_at_idx(s, t, index, n);
     }
+}
+
+// ---- C03: assembling the lookup relation from the facts the code establishes ----
+
+proof fn lemma_lookup_table(z: TimeZoneRef, u: int, t: int, index: int, lt: LocalTimeType)
+    requires
+        z.transitions@.len() > 0,
+        transitions_step_sorted(z.transitions@),
+        is_f(z.leap_seconds@, u, t),
+        i64::MIN <= t <= i64::MAX,
+        t < z.transitions@[z.transitions@.len() - 1].unix_leap_time,
+        0 <= index <= z.transitions@.len(),
+        index > 0 ==> z.transitions@[index - 1].unix_leap_time <= t,
+        index < z.transitions@.len() ==> t < z.transitions@[index].unix_leap_time,
+        lt == z.local_time_types@[if index > 0 { z.transitions@[index - 1].local_time_type_index as int } else { 0 }],
+    ensures
+        lookup_ok(z, u, lt),
+{
+    hide(is_f);
+    let tr = z.transitions@;
+    lemma_transitions_sorted(tr);
+    assert forall|i: int| #[trigger] in_slot(tr, i, t) implies lt == z.local_time_types@[tr[i].local_time_type_index as int] by {
+        if i < index - 1 {
+            assert(tr[i + 1].unix_leap_time <= tr[index - 1].unix_leap_time);
+        }
+        if i > index - 1 {
+            assert(tr[index].unix_leap_time <= tr[i].unix_leap_time);
+        }
+    }
+    if t < tr[0].unix_leap_time && index > 0 {
+        assert(tr[0].unix_leap_time <= tr[index - 1].unix_leap_time);
+    }
+    assert(table_type_is(tr, z.local_time_types@, t, lt));
+}
+
+// facts that hold for every zone: the cases of the lookup that are decided by the trailing rule, by the
+// empty table, or by a refusal of the scale conversion
+proof fn lemma_lookup_cases(z: TimeZoneRef, u: int, t: int)
+    requires
+        z.local_time_types@.len() > 0,
+    ensures
+        z.transitions@.len() == 0 && *z.extra_rule is None ==> lookup_ok(z, u, z.local_time_types@[0]),
+        z.transitions@.len() == 0 && *z.extra_rule is Some ==> (forall|lt: LocalTimeType| rule_answer((*z.extra_rule)->Some_0, u, lt) ==> #[trigger] lookup_ok(z, u, lt)),
+        z.transitions@.len() == 0 && *z.extra_rule is Some && rule_refuses((*z.extra_rule)->Some_0, u) ==> lookup_err(z, u, TzError::OutOfRange),
+        z.transitions@.len() > 0 && leap_conv_overflows(z.leap_seconds@, u) ==> lookup_err(z, u, TzError::OutOfRange),
+        z.transitions@.len() > 0 && is_f(z.leap_seconds@, u, t) && i64::MIN <= t <= i64::MAX && t >= z.transitions@[z.transitions@.len() - 1].unix_leap_time ==> {
+            &&& (*z.extra_rule is None ==> lookup_err(z, u, TzError::NoAvailableLocalTimeType))
+            &&& (*z.extra_rule is Some ==> (forall|lt: LocalTimeType| rule_answer((*z.extra_rule)->Some_0, u, lt) ==> #[trigger] lookup_ok(z, u, lt)))
+            &&& (*z.extra_rule is Some && rule_refuses((*z.extra_rule)->Some_0, u) ==> lookup_err(z, u, TzError::OutOfRange))
+        },
+{
 }
